@@ -114,8 +114,8 @@ PROPS = {
         "design_ref": "DESIGN.md section 5, C06",
     },
     "C07": {
-        "modules": ["Qvnt.Props.C07"],
-        "tie": [tie2(r"quant_(get_probabilities|get_absolute|measure_mask|collapse_mask|rescale|sample_all)_eq|proposal_eq", r"UNSUPPORTED quant\.rs: register/quant\.rs::(collapse_mask|rescale|measure_mask|get_absolute|get_probabilities|sample_all):", creg=True)],
+        "modules": ["Qvnt.Props.C07", "Qvnt.Props.Code.C07"],
+        "tie": [tie2(r"quant_(get_probabilities|get_absolute|measure_mask|measure_mask_weights|collapse_mask|rescale|sample_all)_eq|proposal_eq", r"UNSUPPORTED quant\.rs: register/quant\.rs::(collapse_mask|rescale|measure_mask|get_absolute|get_probabilities|sample_all):", creg=True)],
         "suites": [suite("meas", dict(count=200, max_n=5), dict(count=4000, max_n=8)),
                    suite("born", dict(count=12, shots=2048), dict(count=300, shots=16384))],
         "mismatch_tags": [r"probs", r"measure.*"],
